@@ -655,4 +655,262 @@ theorem update_other_weight (st1 st2 : State) (m : Msg) (e : Bool) (oc : Option 
     omega
   | job u sb w => simp at hm
 
+theorem update_bag (st st' : State) (m : Msg) (e : Bool) (oc : Option Cmd) (h : update st m e = .ok (st', oc)) :
+    st'.bag = st.bag := by
+  cases m with
+  | jobSucceeded u w =>
+    unfold update at h
+    simp only at h
+    split at h
+    · cases h
+    · split at h
+      · cases h
+      · split at h
+        · cases h
+        · injection h with h; injection h with h3 _; subst h3; rfl
+  | scheduleNextJob =>
+    unfold update at h
+    simp only at h
+    split at h
+    · split at h <;> (injection h with h; injection h with h3 _; subst h3; rfl)
+    · split at h
+      · cases h
+      · injection h with h; injection h with h3 _; subst h3; rfl
+      · split at h
+        · cases h
+        · injection h with h; injection h with h3 _; subst h3; rfl
+  | mergeFinished u =>
+    unfold update at h
+    simp only at h
+    split at h
+    · cases h
+    · split at h
+      · cases h
+      · injection h with h; injection h with h3 _; subst h3; rfl
+  | jobFailed => simp only [update] at h; injection h with h; injection h with h3 _; subst h3; rfl
+  | mergeFailed u => simp only [update] at h; injection h with h; injection h with h3 _; subst h3; rfl
+  | mergeNotReady u => simp only [update] at h; injection h with h; injection h with h3 _; subst h3; rfl
+  | allStoresCompleted => simp only [update] at h; injection h with h; injection h with h3 _; subst h3; rfl
+  | fileNotPresent => simp only [update] at h; injection h with h; injection h with h3 _; subst h3; rfl
+  | fileDownloaded => simp only [update] at h; injection h with h; injection h with h3 _; subst h3; rfl
+  | walkerCompleted => simp only [update] at h; injection h with h; injection h with h3 _; subst h3; rfl
+  | downloadSegment =>
+    unfold update at h
+    simp only at h
+    split at h
+    · injection h with h; injection h with h3 _; subst h3; rfl
+    · split at h
+      · injection h with h; injection h with h3 _; subst h3; rfl
+      · split at h <;> (injection h with h; injection h with h3 _; subst h3; rfl)
+
+/-- a job's success moves its unit from Scheduled to PartialPresent or beyond -/
+theorem update_job_rank (st st' : State) (u : WorkUnit) (w : Nat) (e : Bool) (oc : Option Cmd) (hw : st.stages.WF)
+    (h : update st (.jobSucceeded u w) e = .ok (st', oc)) : 2 ≤ rank (st'.stages.getState u.seg u.stage) := by
+  unfold update at h
+  simp only at h
+  split at h
+  · cases h
+  · rename_i s1 sh h1
+    split at h
+    · cases h
+    · split at h
+      · cases h
+      · rename_i s2 tm h2
+        injection h with h; injection h with h3 _; subst h3
+        have hw1 := (markJobSuccess_tstep h1).wf hw
+        have ht := markJobSuccess_target h1 hw
+        have hm := tryMergeList_mono _ s1 s2 tm hw1 h2 u.seg u.stage
+        rw [ht] at hm
+        simpa [rank] using hm
+
+/-- a finished merge moves its unit from Merging to Completed -/
+theorem update_merged_rank (st st' : State) (u : WorkUnit) (e : Bool) (oc : Option Cmd) (hw : st.stages.WF)
+    (hm : st.stages.getState u.seg u.stage = .merging)
+    (h : update st (.mergeFinished u) e = .ok (st', oc)) : 4 ≤ rank (st'.stages.getState u.seg u.stage) := by
+  unfold update at h
+  simp only at h
+  split at h
+  · cases h
+  · rename_i s1 h1
+    split at h
+    · cases h
+    · rename_i s2 t h2
+      injection h with h; injection h with h3 _; subst h3
+      obtain ⟨_, _, _, _, _, _, _, hw1, _, hcompl⟩ := mergeCompleted_spec h1 hw
+      have hmono := cmdTryMerge_mono h2 hw1 u.seg u.stage
+      rw [hcompl hm] at hmono
+      simpa [rank] using hmono
+
+theorem potW_eq_of_walker {st st' : State} (h : st'.walker = st.walker) : potW st' = potW st := by
+  unfold potW; rw [h]
+
+/-! ### every step that executes a command and is not a poll decreases the measure -/
+
+theorem step_decreases {B n : Nat} (st : State) (idx : Nat) (e : Bool) (c : Cmd) (hg : Good st) (hlw : LiveW st)
+    (hb : Bnd B n st.stages) (hend : st.ended = none) (hc : st.bag[idx]? = some c) (hpoll : polls st idx e = false) :
+    (step st idx e).ended ≠ none ∨ (Bnd B n (step st idx e).stages ∧ LT3 (mu B n (step st idx e)) (mu B n st)) := by
+  have hwt := weightList_eraseIdx st.bag idx c hc
+  rcases step_cases st idx e c hend hc with ⟨l, hcl, hs⟩ | hq | ⟨m, st1, st2, oc, hex, hupd, hs⟩
+  · right
+    rw [hs]
+    refine ⟨hb, ?_⟩
+    subst hcl
+    apply LT3.b (Nat.le_refl _) (Nat.le_refl _)
+    show weightList (st.bag.eraseIdx idx ++ l) < weightList st.bag
+    rw [weightList_append, hwt]
+    simp only [Cmd.weight]
+    omega
+  · left; exact hq
+  · right
+    have ms := msgStep_of st idx e c m st1 st2 oc hg hc hex hupd
+    obtain ⟨hf1, hw1, hoff1, hpre, hpool1, hfix1⟩ := msg_pre_of st idx c m st1 hg hc hex
+    have hmono : Mono st.stages st2.stages := by
+      have := step_mono st idx e hg
+      rw [hs] at this; exact this
+    have hw2 : st2.stages.WF := by
+      have := (step_good st idx e hg).inv.wf
+      rw [hs] at this; exact this
+    have hb1 : Bnd B n st1.stages := by
+      refine ⟨by rw [ms.same1.global]; exact hb.last, by rw [ms.same1.global]; exact hb.first, ?_, ?_⟩
+      · have := exec_lenLe (B := B) { st with bag := st.bag.eraseIdx idx } c hb.len
+        rw [hex] at this; exact this
+      · have := congrArg List.length ms.kinds1
+        simp only [List.length_map] at this
+        unfold Stages.nStages
+        rw [this]; exact hb.nst
+    have hb2 : Bnd B n st2.stages := update_bnd st1 st2 m e oc _ hf1 hw1 hoff1 hb1 hpre hupd
+    have hbag2 : st2.bag = st.bag.eraseIdx idx := by
+      rw [update_bag st1 st2 m e oc hupd]
+      have := (exec_same { st with bag := st.bag.eraseIdx idx } c).2.2.1
+      rw [hex] at this; exact this
+    rw [hs]
+    refine ⟨hb2, ?_⟩
+    have hmu : mu B n { st2 with bag := st2.bag ++ oc.toList } =
+        (potR B n st2.stages, potW st2, weightList (st.bag.eraseIdx idx) + weightList oc.toList) := by
+      unfold mu
+      simp only [weightList_append, hbag2]
+      rfl
+    rw [hmu]
+    have hR : potR B n st2.stages ≤ potR B n st.stages := potR_le hmono
+    have hcell : ∀ seg stg, rank (st.stages.getState seg stg) < rank (st2.stages.getState seg stg) →
+        LT3 (potR B n st2.stages, potW st2, weightList (st.bag.eraseIdx idx) + weightList oc.toList) (mu B n st) := by
+      intro seg stg hlt
+      have hne1 : st2.stages.getState seg stg ≠ .pending := by intro hh; rw [hh] at hlt; simp [rank] at hlt
+      have hne2 : st2.stages.getState seg stg ≠ .noOp := by intro hh; rw [hh] at hlt; simp [rank] at hlt
+      have hr := seg_le_of_state st2.stages hw2 hb2.len seg stg hne1 hne2
+      exact LT3.r (potR_lt hmono seg stg hr.1 (by rw [← hb2.nst]; exact hr.2) hlt)
+    have hlight : potW st2 ≤ potW st → weightList oc.toList < c.weight →
+        LT3 (potR B n st2.stages, potW st2, weightList (st.bag.eraseIdx idx) + weightList oc.toList) (mu B n st) := by
+      intro h1 h2
+      apply LT3.b hR h1
+      show _ < weightList st.bag
+      rw [hwt]; omega
+    have hwalk0 : st1.walker = st.walker := ms.walker1
+    cases hans : ms.ans with
+    | sched =>
+      rcases update_sched_cases st1 st2 e oc hupd with hnone | hp | ⟨u, r, sb, w, hoc, hnj⟩
+      · subst hnone
+        have hw' := ms.evo.walker
+        exact hlight (Nat.le_of_eq (potW_eq_of_walker (hw'.trans hwalk0))) (by simp [weightList, Cmd.weight])
+      · exfalso
+        unfold polls at hpoll
+        rw [hc] at hpoll
+        rw [hpool1] at hp
+        simp [hp.1, hp.2] at hpoll
+      · have hch : Chosen st1.fix st1.stages st2.stages u r := nextJob_spec st1.fix hf1 _ _ _ hw1 hoff1 hnj
+        apply hcell u.seg u.stage
+        rw [← ms.same1.get, hch.was_pending, hch.scheduled]; simp [rank]
+    | tick =>
+      rcases update_sched_cases st1 st2 e oc hupd with hnone | hp | ⟨u, r, sb, w, hoc, hnj⟩
+      · subst hnone
+        have hw' := ms.evo.walker
+        exact hlight (Nat.le_of_eq (potW_eq_of_walker (hw'.trans hwalk0))) (by simp [weightList, Cmd.weight])
+      · exfalso
+        unfold polls at hpoll
+        rw [hc] at hpoll
+        rw [hpool1] at hp
+        simp [hp.1, hp.2] at hpoll
+      · have hch : Chosen st1.fix st1.stages st2.stages u r := nextJob_spec st1.fix hf1 _ _ _ hw1 hoff1 hnj
+        apply hcell u.seg u.stage
+        rw [← ms.same1.get, hch.was_pending, hch.scheduled]; simp [rank]
+    | all =>
+      have hw' := ms.evo.walker
+      exact hlight (Nat.le_of_eq (potW_eq_of_walker (hw'.trans hwalk0)))
+        (update_other_weight st1 st2 _ e oc _ .all hupd (Or.inl rfl))
+    | notReady u =>
+      have hw' := ms.evo.walker
+      exact hlight (Nat.le_of_eq (potW_eq_of_walker (hw'.trans hwalk0)))
+        (update_other_weight st1 st2 _ e oc _ (.notReady u) hupd (Or.inr (Or.inr (Or.inl ⟨u, rfl⟩))))
+    | mergeFailed u =>
+      have hw' := ms.evo.walker
+      exact hlight (Nat.le_of_eq (potW_eq_of_walker (hw'.trans hwalk0)))
+        (update_other_weight st1 st2 _ e oc _ (.mergeFailed u) hupd (Or.inr (Or.inl ⟨u, rfl⟩)))
+    | wc =>
+      have hw' := ms.evo.walker
+      exact hlight (Nat.le_of_eq (potW_eq_of_walker (hw'.trans hwalk0)))
+        (update_other_weight st1 st2 _ e oc _ .wc hupd (Or.inr (Or.inr (Or.inr (Or.inr rfl)))))
+    | dl =>
+      have hw' := ms.evo.walker
+      simp only at hw'
+      refine hlight ?_ (update_other_weight st1 st2 _ e oc _ .dl hupd (Or.inr (Or.inr (Or.inr (Or.inl rfl)))))
+      unfold potW
+      rw [hw', hwalk0]
+      cases st.walker with
+      | none => exact Nat.le_refl _
+      | some w => simp only [Option.map_some]; split <;> exact Nat.le_refl _
+    | merged u =>
+      apply hcell u.seg u.stage
+      have h4 := update_merged_rank st1 st2 u e oc hw1 hpre.1 hupd
+      rw [← ms.same1.get, hpre.1]
+      have h0 : rank UnitState.merging = 3 := rfl
+      omega
+    | job u sb w =>
+      apply hcell u.seg u.stage
+      have h2 := update_job_rank st1 st2 u w e oc hw1 hupd
+      rw [← ms.same1.get, hpre.1]
+      have h0 : rank UnitState.scheduled = 1 := rfl
+      omega
+    | absent seg =>
+      exfalso
+      unfold polls at hpoll
+      rw [hc] at hpoll
+      simp only [hex] at hpoll
+      cases hpoll
+    | present seg =>
+      have hw' := ms.evo.walker
+      simp only at hw'
+      have hmem : Cmd.downloadCurrent seg ∈ st.inFlight := ms.perm.mem_iff.2 (List.mem_cons_self)
+      obtain ⟨w, hwk, _, hcur, hnd⟩ := hlw.dlCur seg hmem
+      simp only [Walker.isDone, decide_eq_false_iff_not] at hnd
+      apply LT3.w hR
+      unfold potW
+      rw [hw', hwalk0, hwk]
+      simp only [Option.map_some]
+      omega
+
+/-- from every reachable state, the steps that execute a command and are not polls are well-founded -/
+theorem acc_workStep {c : Cfg} {fix : Patch} {files : Files} (hc : c.OK) (hf : fix.shadow = true) (B n : Nat) :
+    ∀ (x : Nat × Nat × Nat) (st : State), mu B n st = x → Reachable c fix files st → Bnd B n st.stages →
+      Acc (WorkStep c fix files) st := by
+  intro x
+  induction x using LT3_wf.induction with
+  | h x ih =>
+    intro st hmu hr hb
+    constructor
+    intro b hstep
+    obtain ⟨_, idx, e, hend, hidx, hpoll, hb'⟩ := hstep
+    subst hb'
+    have hcmd : st.bag[idx]? = some st.bag[idx] := List.getElem?_eq_getElem hidx
+    rcases step_decreases st idx e _ (reachable_good hc hf hr) (reachable_liveW hc hf hr) hb hend hcmd hpoll with
+      hended | ⟨hb2, hlt⟩
+    · constructor
+      intro b2 hstep2
+      obtain ⟨_, _, _, hend2, _⟩ := hstep2
+      exact absurd hend2 hended
+    · exact ih _ (hmu ▸ hlt) _ rfl (Reachable.step idx e hr) hb2
+
+theorem bnd_exists (s : Stages) : ∃ B n, Bnd B n s :=
+  ⟨s.globalSeg.lastIndex + s.globalSeg.firstIndex + s.offset + s.states.length, s.nStages,
+   ⟨by omega, by omega, by unfold LenLe; omega, rfl⟩⟩
+
 end SV.Sch
